@@ -436,9 +436,14 @@ def finish(pid, mod, tier, seed, nshards, results, problems, t0, replay=None):
                 pid, fid, f.get("what", ""), known_hits[fid]))
         else:
             print("note: listed finding %s was not observed in this run" % fid)
+    if not replay:
+        import glob
+        for old in glob.glob(os.path.join(HERE, "replays", "%s-*.json" % pid)):
+            os.unlink(old)
     if n_viol:
         os.makedirs(os.path.join(HERE, "replays"), exist_ok=True)
         seen = set()
+        shown = 0
         for v in violations:
             h = stable_hash(v["case"])
             if h in seen:
@@ -449,10 +454,14 @@ def finish(pid, mod, tier, seed, nshards, results, problems, t0, replay=None):
                 json.dump({"property": pid, "case": v["case"], "detail": v["detail"],
                            "seed": seed, "tier": tier, "hashseed": v.get("hashseed")},
                           fh, indent=1, ensure_ascii=True)
+            shown += 1
+            if shown > 8:
+                continue
             print("VIOLATION property=%s replay=%s" % (pid, path))
             d = json.dumps(v["detail"], ensure_ascii=True)
-            print("  detail: " + (d if len(d) < 1500 else d[:1500] + " ..."))
-        print("%s: VIOLATED (%d violating cases, %d distinct shown)" % (pid, n_viol, len(seen)))
+            print("  detail: " + (d if len(d) < 700 else d[:700] + " ..."))
+        print("%s: VIOLATED (%d violating cases, %d distinct replay files under replays/, %d shown)" % (
+            pid, n_viol, len(seen), min(shown, 8)))
         return 1
     if verdict == "inconclusive":
         for p in problems:
